@@ -21,17 +21,33 @@ func extractDecodeResult(repo string, f *Facts) {
 		f.bad("results: Results.DecodeResult not found")
 		return
 	}
-	var loop *ast.ForStmt
+	var loopBody *ast.BlockStmt
+	loopHead := ""
 	ast.Inspect(fd.Body, func(n ast.Node) bool {
-		if fs, ok := n.(*ast.ForStmt); ok && loop == nil {
-			loop = fs
+		if loopBody != nil {
+			return false
+		}
+		switch fs := n.(type) {
+		case *ast.ForStmt:
+			loopBody = fs.Body
+			// `for i := 0; i < b.Columns; i++`: the bound of the loop is part of the contract (the descriptors of all
+			// columns of the block are consumed, whatever the targets are)
+			if be, ok := fs.Cond.(*ast.BinaryExpr); ok {
+				if se, ok := be.Y.(*ast.SelectorExpr); ok {
+					loopHead = "for-each-column-of-block:" + se.Sel.Name
+				}
+			}
+		case *ast.RangeStmt:
+			loopBody = fs.Body
+			loopHead = "range"
 		}
 		return true
 	})
-	if loop == nil {
+	if loopBody == nil {
 		f.bad("results: the column loop of DecodeResult was not found")
 		return
 	}
+	f.raw("\n/-- what the column loop of Results.DecodeResult iterates over -/\ndef decodeResultLoop : String := %s\n", leanStr(loopHead))
 	interesting := map[string]bool{"Str": true, "Bool": true, "Infer": true, "Type": true, "Conflicts": true, "Reset": true,
 		"DecodeState": true, "DecodeColumn": true}
 	var order []string
@@ -77,7 +93,7 @@ func extractDecodeResult(repo string, f *Facts) {
 			return true
 		})
 	}
-	walk(loop.Body)
+	walk(loopBody)
 	var q []string
 	for _, o := range order {
 		q = append(q, leanStr(o))
